@@ -74,17 +74,19 @@ def worker(cfg, tier):
         inv.append(z3.Implies(z3.And(seq[i] < 0, seq[i + 1] >= 0), ts_sent[i + 1] + d >= Fraction(1, 10**6)))
     arrived = [z3.Or(seq[i] < 0, ts_sent[i] + d <= ts_start) for i in range(n)]
     m = z3.Sum([z3.If(a, 0, 1) for a in arrived])
-    inv.append(m <= ext)
+    regular = m <= ext
     if interp == "linear":
         inv.append(z3.Or(seq[1] >= 0, n < 2) if n >= 2 else z3.BoolVal(True))  # at most one not-yet-filled entry (repeated default knots at t=0 otherwise)
         K = [z3.If(seq[i] < 0, ts_recv[i], ts_sent[i] + d) for i in range(n)]
     else:
         inv.append(seq[0] >= 0)  # real entries only: the -1e9 sentinel knot relies on float absorption, outside the real model
         K = [ts_sent[i] + d for i in range(n)]
+    inv_any = list(inv)  # any sender: no bound on the number of unarrived entries
+    inv.append(regular)
     obs = []
     tmo = 400 if tier == "quick" else 1200
     heavy = W >= 2  # non-linear queries over a 2-entry window with 4+ knots: z3's nlsat time is erratic; decided when it answers, else dropped (stated)
-    tmo_heavy = 60 if tier == "quick" else 900
+    tmo_heavy = 30 if tier == "quick" else 900
     od = out.data.y.flat()
     # query times written independently: x_j = ts_start - (K[idx_max-1] - K[idx_min+j]) with idx_max = n - m
     goals_pl, goals_between, goals_newest = [], [], []
@@ -104,6 +106,26 @@ def worker(cfg, tier):
             vhi = z3.If(data[lo_i] >= data[hi_i], data[lo_i], data[hi_i])
             if j == W - 1:
                 goals_between.append(z3.Implies(m == mm, z3.And(od[j] >= vlo, od[j] <= vhi)))
+    # irregular senders (more than ext entries unarrived; the slice start is clamped): the newest query time is still ts_start
+    goals_newest_any = []
+    Ks_ = [z3.If(seq[i] < 0, ts_recv[i] - d, ts_sent[i]) for i in range(n)] if interp == "linear" else ts_sent
+    for mm in range(ext + 1, n + 1):
+        goals_newest_any.append(z3.Implies(m == mm, od[W - 1] == PL(ts_start - d, Ks_, data)))
+    verdict, secs, mdl_bad = "unsat", 0.0, None
+    for gi in goals_newest_any:
+        fa = smt.abstract_apps(inv_any + [gi])
+        v, mdl, s = smt.check(fa[:-1], fa[-1], tmo_heavy if heavy else tmo)
+        secs += s
+        if v == "sat":
+            verdict, mdl_bad = "sat", mdl
+            break
+        if v == "unknown":
+            verdict = "unknown"
+    o = Ob(f"{interp}: irregular sender (more than ext entries unarrived): newest entry == sender's piecewise-linear signal at ts_start - delay", verdict, secs, cfg,
+           key="interp-newest-any", what=f"apply_delay({interp}): with fewer than `window` arrived entries the newest entry is not the signal at ts_start - delay", queries=len(goals_newest_any), optional=heavy)
+    if verdict == "sat":
+        o.replayed = _replay(cfg, mdl_bad, tr, flat, "newest-any")
+    obs.append(o)
     for name, goal, key in [
         ("entry j == piecewise-linear signal through (arrival_i, value_i) at ts_start - (arrival[newest arrived] - arrival[idx_min + j])", goals_pl, "interp-pl"),
         ("newest entry == sender's piecewise-linear signal (knots at send times) evaluated at ts_start - delay", goals_newest, "interp-newest"),
@@ -174,6 +196,71 @@ def worker(cfg, tier):
     v, mdl, s = smt.satisfiable(inv + [z3.And(seq[n - 2] >= 0, ts_sent[n - 2] + d < ts_start, ts_start < ts_sent[n - 1] + d)], 30)
     obs.append(Ob(f"{interp}: twin.strictly inside a segment", v, s, cfg, kind="vacuity"))
     return obs
+
+
+def worker_payload(cfg, tier):
+    """payload shapes: interpolating a window of vector (or matrix) payloads equals interpolating every component on its own
+    (differential between two evaluations of the real apply_delay on the same symbolic timings; the scalar case is decided by `worker`)"""
+    import jax.numpy as jnp
+    from rex.base import InputState, TrainableDist
+    from vlib import cg, jx, smt
+    from vlib.fixtures import POutput
+
+    W, rate, dmin, dmax, interp, pshape = cfg["W"], cfg["rate"], cfg["min"], cfg["max"], cfg["interp"], tuple(cfg["payload"])
+    dd = TrainableDist(alpha=jnp.float32(0.5), min=float(dmin), max=float(dmax), interp=interp)
+    n = W + dd.window(rate)
+    mk = lambda shp: InputState.from_outputs(np.zeros(n, np.int32), np.zeros(n, np.float32), np.zeros(n, np.float32), POutput(y=np.zeros((n,) + shp, np.float32)), delay_dist=dd, is_data=True)
+    it = jx.Interp()
+    f = lambda i, t: i.delay_dist.apply_delay(rate, i, t)
+    trv = jx.Traced(f, mk(pshape), np.float32(0.0))
+    trs = jx.Traced(f, mk(()), np.float32(0.0))
+    flat_v = trv.sym_inputs(it, "v")
+    k = [i for i, sa in enumerate(flat_v) if tuple(sa.shape) == (n,) + pshape][0]
+    outv = trv.run(it, flat_v)
+    conj, t0 = [], time.time()
+    for c in np.ndindex(*pshape):
+        flat_s = list(flat_v)
+        flat_s[k] = jx.SA(flat_v[k].v[(slice(None),) + c], flat_v[k].dtype)
+        outs = trs.run(it, flat_s)
+        e = jx.sa_equal(it.alg, jx.SA(outv.data.y.v[(slice(None),) + c], outv.data.y.dtype), outs.data.y)
+        conj.append(z3.BoolVal(e) if isinstance(e, bool) else e)
+        for a, b in ((outv.seq, outs.seq), (outv.ts_sent, outs.ts_sent), (outv.ts_recv, outs.ts_recv)):
+            e = jx.sa_equal(it.alg, a, b)
+            conj.append(z3.BoolVal(e) if isinstance(e, bool) else e)
+    goal = z3.simplify(z3.And(*conj))
+    triv = z3.is_true(goal)
+    v, mdl, s_ = ("unsat", None, 0.0) if triv else smt.check([], goal, 120)
+    o = Ob(f"{interp}: a window of {pshape}-shaped payloads is interpolated component by component (entry j, component c == scalar result for component c)", v, time.time() - t0, cfg,
+           trivial=triv, key="interp-payload-shape", what=f"apply_delay({interp}) scrambles multi-dimensional payloads when window > 1 (entries and components are mixed up)")
+    if v == "sat":
+        o.replayed = _replay_payload(cfg)
+    return [o]
+
+
+def _replay_payload(cfg):
+    """real apply_delay on a regular sender with component-wise distinguishable payloads: vector result vs per-component scalar results"""
+    import jax.numpy as jnp
+    from rex.base import InputState, TrainableDist
+    from vlib.fixtures import POutput
+
+    try:
+        W, rate, pshape = cfg["W"], cfg["rate"], tuple(cfg["payload"])
+        dd = TrainableDist(alpha=jnp.float32(0.5), min=float(cfg["min"]), max=float(cfg["max"]), interp=cfg["interp"])
+        n = W + dd.window(rate)
+        seq, sent = np.arange(n, dtype=np.int32), (np.arange(n) / rate).astype(np.float32)
+        P = int(np.prod(pshape))
+        y = (np.arange(n, dtype=np.float32)[:, None] * (1 + np.arange(P, dtype=np.float32))[None, :] + 100 * np.arange(P, dtype=np.float32)[None, :]).reshape((n,) + pshape)
+        d = float(cfg["min"]) + 0.5 * (float(cfg["max"]) - float(cfg["min"]))
+        ts = np.float32(sent[n - 1] + d - 0.25 / rate)
+        mk = lambda data: InputState.from_outputs(seq, sent, sent + np.float32(cfg["min"]), POutput(y=data), delay_dist=dd, is_data=True)
+        outv = np.asarray(dd.apply_delay(rate, mk(y), ts).data.y)
+        bad = False
+        for c in np.ndindex(*pshape):
+            outs = np.asarray(dd.apply_delay(rate, mk(y[(slice(None),) + c]), ts).data.y)
+            bad = bad or not np.allclose(outv[(slice(None),) + c], outs, rtol=1e-5, atol=1e-6)
+        return bool(bad)
+    except BaseException:  # noqa
+        return None
 
 
 def _np_pl(x, K, V):
@@ -257,7 +344,14 @@ def run(rep):
                        "continuity in the delay is covered through the zero-order-hold coincidence at the breakpoints; Lipschitz bound not attempted",
                        "window 2: the interpolant/gradient equalities are non-linear queries whose nlsat time is erratic; they are attempted under a cap and, if the solver does not answer, "
                        "reported under notes and dropped from the claim (never counted as held); window 1 and the zoh-coincidence/bracketing obligations are required"]
-    rep.add_all(pmap("props.c11", "worker", cfgs, rep.tier))
+    obs = pmap("props.c11", "worker", cfgs, rep.tier)
+    pcfgs = [dict(W=w, rate=64, min=0.0, max=0.03125, interp=ip, payload=list(ps)) for ip in ("linear", "linear_real_only") for w, ps in ((2, (2,)), (1, (3,)), (3, (2,)), (2, (2, 2)))]
+    if rep.tier == "thorough":
+        pcfgs += [dict(W=w, rate=64, min=0.015625, max=0.0625, interp=ip, payload=list(ps)) for ip in ("linear", "linear_real_only") for w, ps in ((2, (3,)), (3, (2, 2)), (4, (2,)))]
+    rep.configs = list(cfgs) + pcfgs
+    rep.bounds["payload"] = "scalar f32 (laws); vectors/matrices up to 2x2 and window <= 3 (4) reduced to the scalar case component by component"
+    obs += pmap("props.c11", "worker_payload", pcfgs, rep.tier)
+    rep.add_all(obs)
 
 
 def replay(rp):
